@@ -86,6 +86,26 @@ func lbGenSteps(r *core.Rand, n int, focus string) []lbStep {
 	if r.Chance(3, 4) {
 		out = append(out, lbStep{AtNs: int64(r.LogUniform(1, 50000000)), Op: "spec", Spec: lbGenSpec(r, 0)}, lbStep{AtNs: int64(r.LogUniform(1, 1000000)), Op: "state"})
 	}
+	// ... and some with a burst of channel state changes in one virtual
+	// instant: watchers woken by the first are calling WaitForStateChange
+	// again while the next ones arrive, and the last one is final
+	burst := 1
+	if focus == "C30" {
+		burst = 2
+	}
+	if r.Chance(burst, 4) {
+		at := int64(r.LogUniform(1, 100000000))
+		prev := 0
+		for k := r.Range(2, 4); k > 0; k-- {
+			st := r.Range(1, 4)
+			if st == prev {
+				st = st%4 + 1
+			}
+			prev = st
+			out = append(out, lbStep{AtNs: at, Op: "state", State: st})
+			at = 0
+		}
+	}
 	return out
 }
 
@@ -93,6 +113,10 @@ func lbGen(seed uint64, tier string, focus string) *Scenario {
 	r, s := genBase(seed, tier)
 	s.Oracles = []string{"status_error"}
 	s.Target = "simres:///x"
+	if focus == "C30" && r.Chance(1, 2) {
+		// the state manager's windows are a few instructions wide
+		s.Sched.YieldThr = core.Pick(r, uint32(700), 2000, 6500, 15000, 30000)
+	}
 	if r.Chance(1, 2) {
 		s.Net.DialDelayNs = int64(core.Pick(r, 1000, 100000, 5000000))
 	}
@@ -267,6 +291,14 @@ func lbGen(seed uint64, tier string, focus string) *Scenario {
 		case "reset", "half_close":
 			f.AtNs = int64(r.LogUniform(1, 200000000))
 			f.Dir = core.Pick(r, "c2s", "s2c", "both")
+			if kind == "half_close" {
+				// only the server's direction: when the client's own writes
+				// fail while its reader sees nothing, the subchannel stays READY
+				// and grpc-go retries the RPC transparently in a tight loop (tens
+				// of thousands of picks per virtual instant) until the peer
+				// reacts; that is legal but makes a run very expensive
+				f.Dir = "s2c"
+			}
 		case "stall":
 			f.AtNs, f.DurNs = int64(r.LogUniform(1, 50000000)), int64(r.LogUniform(1000, 2000000000))
 		case "dial_fail":
